@@ -124,6 +124,9 @@ func (pres *Presence) UnmarshalXML(d *xml.Decoder, start xml.StartElement) error
 					err = d.DecodeElement(&pres.Priority, &tt)
 				case "error":
 					err = d.DecodeElement(&pres.Error, &tt)
+				default:
+					// Unknown child: skip it entirely, so that its content is not mistaken for children of the presence
+					err = d.Skip()
 				}
 				if err != nil {
 					return err
